@@ -218,6 +218,10 @@ class BallCountHandler(BallDeviceStateHandler):
         eject_process.cancel()
         self.debug_log("Exited eject mode. Eject success: %s", ball_left)
         if ball_left:
+            # BallDevice.balls reports count - 1 while the device is in "ball_left" or "failed_confirm" (the ball
+            # is on its way out). The ball is gone for good now: leave those states before lowering the count so
+            # that it is not subtracted twice (balls would be -1 for a device which held one ball).
+            self.ball_device.set_eject_state("eject_confirmed")
             self._set_ball_count(self._ball_count - 1)
         self._eject_started.clear()
         self._is_counting.release()
